@@ -122,7 +122,7 @@ def check(ctx):
                         want_shape = ("attr", Q.sub(CHK, 0), "shape")
                         ok_unr = True if ushape == want_shape or ushape == ("attr", Q.sub(CHK, 1), "shape") else (False if isinstance(ushape, tuple) and any(xx == g for xx in walk(ushape)) else None)
                         uidx = Q.arg(ctx, u, "indices")
-                        src = Q.unwrap(uidx) if isinstance(uidx, tuple) else None
+                        src = Q.unwrap(uidx, int_ok=True) if isinstance(uidx, tuple) else None
                         ctx.check("R3", "%s|unravels-each-window|%s" % (RW, tag), True if src is not None and src == ("elem", q, val[4]) else None, "each window's own index list is unravelled", fn=RW)
         ctx.check("R3", "%s|indices-array-shape|%s" % (RW, tag), ok_shape, "the index array has the shape of the window centres", bad="the index array is shaped like the data, not like the centres", fn=RW)
         ctx.check("R3", "%s|unravel-shape|%s" % (RW, tag), ok_unr, "1-D indices are unravelled to the shape of the input coordinates", bad="indices are unravelled with the centres' shape", fn=RW)
@@ -171,7 +171,7 @@ def check(ctx):
         ok0 = oks = None
         if len(us) == 1:
             idx = Q.arg(ctx, us[0], "indices")
-            src = Q.unwrap(idx) if isinstance(idx, tuple) else None
+            src = Q.unwrap(idx, int_ok=True) if isinstance(idx, tuple) else None
             if src is not None and src[0] == "sub" and src[1] == q and is_int(src[2]):
                 ok0 = True if src[2][1] == 0 else False
             shp = Q.arg(ctx, us[0], "shape")
